@@ -4,3 +4,4 @@ pub mod exh;
 pub mod sim;
 pub mod simmon;
 pub mod sweep;
+pub mod wrapmon;
